@@ -59,6 +59,11 @@ def conclude(pid, tier, seed, obls, infos, undecided_reasons, wall, write_eviden
                     ob.status = FAILED
                     ob.detail += "\n(promoted from undecided: the witness search found a failing input on the real code)"
     for ob in obls:
+        w = getattr(ob, "witness", None)
+        if ob.backend == "kani" and ob.status == FAILED and isinstance(w, dict) and not (getattr(ob, "replay", None) or {}).get("confirmed"):
+            import witness
+            witness.attach(ob, w["mode"], w["key"], seed, tier)
+    for ob in obls:
         if ob.status == FAILED:
             f = _match_known(ob, kf)
             if f:
